@@ -1,1 +1,2 @@
 import Ypv.Props.C04
+#print axioms Ypv.C04.placeholder
